@@ -22,7 +22,7 @@ def build_registry():
     # contracts that refer to other contracts' clauses are registered last
     from . import c_track
     c_track.register_dispatcher(reg, S)
-    for m in ("c_sections",):
+    for m in ("c_sections", "c_safety", "c_file"):
         try:
             mod = importlib.import_module(f"contracts.{m}")
         except ModuleNotFoundError as e:
